@@ -53,7 +53,11 @@ fn main() {
             "C05" => props::c05::replay(&ctx, &v),
             "C06" => props::c06::replay(&ctx, &v),
             "C07" => props::c07::replay(&ctx, &v),
+            "C08" => props::c08::replay(&ctx, &v),
             "C12" => props::c12::replay(&ctx, &v),
+            "C13" => props::c13::replay(&ctx, &v),
+            "C14" => props::c14::replay(&ctx, &v),
+            "C15" => props::c15::replay(&ctx, &v),
             _ => {
                 eprintln!("unknown property {prop}");
                 std::process::exit(2);
@@ -65,7 +69,11 @@ fn main() {
             "C05" => props::c05::run(&ctx),
             "C06" => props::c06::run(&ctx),
             "C07" => props::c07::run(&ctx),
+            "C08" => props::c08::run(&ctx),
             "C12" => props::c12::run(&ctx),
+            "C13" => props::c13::run(&ctx),
+            "C14" => props::c14::run(&ctx),
+            "C15" => props::c15::run(&ctx),
             _ => {
                 eprintln!("unknown property {prop}");
                 std::process::exit(2);
